@@ -216,6 +216,11 @@ class C12Elitism(Monitor):
                 sb = sorted(b, reverse=rev)
                 is_intra = bool(intra[g]) if intra is not None and g < len(intra) else False
                 self.cov(f"pairs.{eng}.{'max' if rev else 'min'}")
+                if eng in SEA_ELITIST and want is not None:
+                    if want == 1:
+                        self.cov(f"pairs_of_a_single_individual_population.{'max' if rev else 'min'}")
+                    elif lv.get("k_elites", 1) >= want:
+                        self.cov(f"pairs_with_every_parent_an_elite.{'max' if rev else 'min'}")
                 if is_intra:
                     self.cov(f"intra_pairs.{eng}.{'max' if rev else 'min'}")
                 if self.better(sa[0], sb[0]):
